@@ -1,8 +1,10 @@
 """Recipe for C11 (pooled-buffer ownership): component `bufown`.
-coq/bufown: the discipline checker (sound + complete for every trace) and the instrumented response-writer model;
-ocaml/bufown: line-protocol driver of the extracted checker + model; harness/cmd/bufown: instrumented allocator behind
-the public seams (mempool.DefaultMemPool, nbhttp/nbio Config.BodyAllocator), real code driven through HTTP exchanges,
-WebSocket connections, the nbio.Conn write queue and a real nbhttp engine."""
+coq/bufown: the discipline checker (sound + complete for every trace) and four instrumented models with their theorems:
+the response writer (RespAlloc), the connection write queue (WqAlloc), the WebSocket receive path (WsRecvAlloc), the HTTP
+BodyReader (BodyAlloc); ocaml/bufown: line-protocol driver of the extracted checker + models; harness/cmd/bufown:
+instrumented allocator behind the public seams (mempool.DefaultMemPool, nbhttp/nbio Config.BodyAllocator), real code driven
+through HTTP exchanges, WebSocket connections, the nbio.Conn write queue (real engine and scripted shim kernel), the
+BodyReader and a real nbhttp engine."""
 from props import EXTRACT_TB, NATINT_TB, n
 
 MODEL = ("bufown", "Extract.v", ["bomodel"], "main.ml")
@@ -15,8 +17,17 @@ def c11(c):
         "Go harness cmd/bufown: the instrumented allocator (ids by *[]byte identity, live map, poison 0xDB on Free, fresh memory 0xCD, "
         "no recycling, runtime.Callers for the sites), the scripted net.Conn that reports which pooled buffer a payload lies in, "
         "the trace normalisation used for the model comparison (runs of Appends on one buffer count once, ids renamed by first appearance)",
-        "the instrumented response model coq/bufown/RespAlloc.v abstracts buffer contents to lengths and is tied to nbhttp/response.go + "
-        "releaseResponse by the differential run only (Write results, conn.Write boundaries and success, allocator trace), not proved",
+        "the four instrumented models abstract buffer contents to lengths and are tied to the code by the differential run only, not proved: "
+        "RespAlloc.v to nbhttp/response.go + releaseResponse (Write results, conn.Write boundaries and success, allocator trace); "
+        "WqAlloc.v to conn_unix.go / sendfile_unix.go on a simulated descriptor of the shim kernel overlay/pkg/verifsys (per operation: error or not, "
+        "closed, shape of the queue, Conn.left; allocator trace; the kernel's read of a queued buffer is observed through OnWrittenSize); "
+        "WsRecvAlloc.v to websocket.Conn.Parse / CloseAndClean (per Parse: result class, cache length, message length, closed; number of buffers left "
+        "to the application; allocator trace with the Appends that directly follow a buffer's Malloc merged into it; the outcome of every inflate "
+        "is an oracle input taken from the generated data); BodyAlloc.v to nbhttp/body.go through the overlay accessor VerifBodyAppend (per operation: "
+        "result, number of buffers, index, left; allocator trace without the model's Use events, which the real side cannot observe)",
+        "overlay accessors owned by this component: overlay/add/nbhttp/zz_verif_bufown.go (BodyReader.append), "
+        "overlay/add/nbhttp/websocket/zz_verif_bufown.go (Conn.releasePayload setter); used from other components: verifsys, zz_verif_conn.go, "
+        "zz_verif_ws.go (VerifGetState)",
         "reads through stale pointers that never reach a connection or a handler are invisible (only Malloc/Append/Realloc/Free and "
         "the slices handed to conn.Write / OnMessage / OnDataFrame are observed; other stale reads show only as poison in outputs); "
         "sync.Pool internals and the three library allocators themselves are C20's subject",
@@ -24,11 +35,15 @@ def c11(c):
         "every interleaving; the event order may differ between runs, the verdicts do not depend on it)",
     ]
     c.assumptions += [
-        "theorems: checker soundness/completeness for every trace; discipline, distinctness, liveness and release of the response writer's buffers "
-        "for all handler programs, allocator behaviours and conn.Write failure patterns (model)",
-        "parser cache, BodyReader, websocket.Conn (cache, message, frame, protocol buffers, readAll, writeFrame, send queue, CloseAndClean), upgrader, "
-        "nbio.Conn write queue: decided by the oracles on the real code only (no instrumented model yet): c11_discipline is partial",
-        "HTTP client side (ClientProcessor), TLS buffers, sendfile path: not driven",
+        "theorems (models): checker soundness/completeness for every trace; response writer: discipline, distinctness, liveness, release for all handler "
+        "programs / allocator behaviours / conn.Write failure patterns; write queue: for all op sequences x kernel scripts x allocator answers the queued "
+        "buffers are exactly the live ones, a closed connection has returned everything; WebSocket receive path: for all frame streams x segmentations x "
+        "inflate outcomes cache + message + what the application was given are exactly the live buffers, after close only the latter, with ReleasePayload "
+        "nothing; BodyReader: for all append/Read/Close sequences the reader's buffers are exactly the live ones, Close returns all",
+        "HTTP parser cache, WebSocket send path (writeFrame, send queue, WriteMessage's compression buffer), upgrader: decided by the oracles on the "
+        "real code only (no instrumented model): c11_discipline is partial in that respect",
+        "write-queue model: Sendfile's Dup failure is not modelled; K1 (a stream socket never accepts 0 bytes of a non-empty write) as in coq/connio",
+        "HTTP client side (ClientProcessor), TLS buffers: not driven",
     ]
     args = ["-n", n(c, 120, 1500)]
     if c.tier == "thorough":
@@ -43,25 +58,35 @@ HARNESSES = [("bufown", True)]
 
 MANIFEST = {
     "C11": dict(
-        technique="Coq proof (verified trace checker: sound and complete for the ownership discipline on every event trace; invariant by induction over all handler "
-                  "programs / allocator answers / write-failure patterns for the instrumented response-writer model) + instrumented allocator behind the public allocator "
-                  "seams recording the real code's event trace, checked by the extracted checker, with poison / live-map oracles",
+        technique="Coq proof (verified trace checker: sound and complete for the ownership discipline on every event trace; invariants by induction over ALL runs of four "
+                  "instrumented models - response writer, connection write queue, WebSocket receive path, HTTP BodyReader - under all oracle answers: allocator moves and "
+                  "capacities, kernel scripts, write failures, inflate outcomes) + instrumented allocator behind the public allocator seams recording the real code's event "
+                  "trace, checked by the extracted checker and compared with the models, with poison / live-map oracles",
         text="coq/bufown/C11.v. Part 1: the ownership discipline over allocator events (Malloc, Append/Realloc with or without a new pointer, Free, Use) is specified "
              "index-wise (ids unique; everything freed/used/appended was handed out before and not released before) and check_trace is proved sound, complete and to report "
-             "the first offending event, for every trace. Part 2: nbhttp/response.go + releaseResponse instrumented with its allocator events (buffer, bodyBuffer, writeChunk's "
-             "and flush's buffers, every error branch of a failing conn.Write) obeys the discipline for ALL handler programs, ALL move/no-move answers of Append and ALL "
-             "failure patterns; buffer and bodyBuffer are distinct live buffers at every step and nothing is held after flushResponse. Tie to the code: an allocator implementing "
-             "mempool.Allocator is installed as mempool.DefaultMemPool and Config.BodyAllocator (nbhttp and nbio); it records the event trace of the REAL code with stable ids, "
-             "keeps a live map, poisons on Free, never recycles; the real Parser+ServerProcessor+Response+BodyReader (pipelined requests, all segmentations, parse errors, close "
-             "mid-message, write failure at every k), real websocket.Conn in both roles (thresholds, fragments, compression, limits, invalid frames, send queue with a slow "
-             "connection, close races), the nbio.Conn write queue on a real engine and a real nbhttp engine (non-blocking and blocking mode: upgrade of an *nbio.Conn, executor "
-             "dispatch with payload release, pooled read buffer) are driven; every trace goes through the extracted checker (verdict must equal the live "
-             "map's), the response runs are compared event by event with the model, and double free / use after free / append after free / foreign free / write after free / "
-             "poison or never-written memory on the wire or in delivered messages are reported per call site.",
-        note="Partial: only the response writer has an instrumented model and a theorem; the other components are decided by the oracles on the real code. Reads through stale "
-             "pointers are visible only when they reach a connection or handler (as poison). Found with this check and fixed in /repo: D24 (Free of a pointer the allocator never "
-             "handed out for empty WebSocket payloads; corrupts mempool.NewAligned's pool). Trusted: Coq kernel, extraction, OCaml driver, Go harness.",
-        design="4/C11, Appendix C, D"),
+             "the first offending event, for every trace. Part 2: nbhttp/response.go + releaseResponse instrumented with its allocator events (every error branch of a failing "
+             "conn.Write) obeys the discipline for ALL handler programs, Append answers and failure patterns; buffer and bodyBuffer are distinct live buffers at every step, "
+             "nothing is held after flushResponse. Part 3: the connection write queue (conn_unix.go Write/Writev/Sendfile/flush/Close: copy into pooled buffers when a backlog "
+             "forms, coalescing with re-allocation, release of each buffer exactly when its last byte was taken, release of the rest on close / fatal errno / overflow) for ALL "
+             "operation sequences x kernel scripts (short writes, EAGAIN, EINTR, errors) x allocator answers: the queued buffers are EXACTLY the live buffers, each once; a "
+             "closed connection has returned everything. Part 4: the WebSocket receive path (cache growth and in-place consumption, message growth across fragments incl. empty "
+             "ones, frame and control payload copies, inflate into readAll's buffer with its failure branches, the recover path, hand-over to the handlers with ReleasePayload "
+             "on/off incl. the empty-payload case of D24, the close frames the receive path sends, CloseAndClean also from inside a handler) for ALL frame streams x "
+             "segmentations x inflate outcomes: cache + message + what the application was given are exactly the live buffers; after close only the latter; with ReleasePayload "
+             "nothing. Part 5: BodyReader for ALL append/Read/Close sequences: its buffers are exactly the live ones, Close returns all. Tie to the code: an allocator "
+             "implementing mempool.Allocator is installed as mempool.DefaultMemPool and Config.BodyAllocator (nbhttp and nbio); it records the event trace of the REAL code with "
+             "stable ids, keeps a live map, poisons on Free, never recycles. Every model is run on the same programs as the real code (response: handler programs x failing "
+             "write at every k; write queue: real nbio.Conn on a simulated descriptor with scripted syscalls; receive path: real websocket.Conn in both roles fed frame streams "
+             "in segments; BodyReader driven directly) and the per-operation observations and the allocator traces must agree; beyond that the real Parser+ServerProcessor+"
+             "Response+BodyReader (pipelined requests, all segmentations, parse errors, close mid-message), websocket.Conn with echo / send queue / slow connection / close "
+             "races, the write queue on a real engine and a real nbhttp engine (upgrade of an *nbio.Conn, executor dispatch, pooled read buffer) are driven; every trace goes "
+             "through the extracted checker (verdict must equal the live map's); double free / use after free / append after free / foreign free / write after free / "
+             "not returned after close / poison or never-written memory on the wire or in delivered data are reported per call site.",
+        note="Partial: the HTTP parser's cache, the WebSocket send path (writeFrame's send queue, WriteMessage's compression buffer) and the upgrader have no instrumented model "
+             "(oracles on the real code only); the correspondence of the four models with the code is tested, not proved. Reads through stale pointers are visible only when "
+             "they reach a connection, the shim kernel or a handler. Found with this check and fixed in /repo: D24 (Free of a pointer the allocator never handed out for empty "
+             "WebSocket payloads; corrupts mempool.NewAligned's pool). Trusted: Coq kernel, extraction, OCaml driver, Go harness, shim kernel.",
+        design="4/C11, Appendix C, D, E"),
 }
 
 READY = True
